@@ -19,27 +19,22 @@ Proof.
   destruct C as [-> | [-> | [-> | [-> | [-> | ->]]]]]; vm_compute; reflexivity.
 Qed.
 
-(* ---- #10: NiString::Write with a 1-byte size ---- *)
+(* ---- NiString::Write with a 1-byte size and strings of 255 characters and more (DESIGN.md
+   section 7, #10; repaired: the string is cut to what the prefix can express) ---- *)
 Definition str255 : list N := repeat 65 255.
 Definition str300 : list N := repeat 66 300.
 
-(* length 255: [sz += 1] wraps to 0, the reader sees an empty string and the 255 characters are
-   taken for the following fields *)
-Lemma nistring1_len255_refuted :
-  exists s, nul_free s /\ vlen s = 255 /\
-    forall r, rd_nistring 1 (fst (wr_nistring 1 true s) ++ r) = Ok ([], s ++ 0 :: r).
-Proof.
-  exists str255. split; [apply Forall_forall; intros x Hx; apply repeat_spec in Hx; subst; discriminate|].
-  split; [reflexivity|]. intros r. reflexivity.
-Qed.
+Lemma str255_nul_free : nul_free str255.
+Proof. apply Forall_forall; intros x Hx; apply repeat_spec in Hx; subst; discriminate. Qed.
 
-(* length >= 256: the in-memory string is cut to length mod 256 by the save *)
-Lemma nistring1_truncates_refuted :
-  exists s, nul_free s /\ vlen s = 300 /\ vlen (snd (wr_nistring 1 true s)) = 44.
-Proof.
-  exists str300. split; [apply Forall_forall; intros x Hx; apply repeat_spec in Hx; subst; discriminate|].
-  split; reflexivity.
-Qed.
+(* the former failing inputs, now read back as their first 254 characters *)
+Lemma nistring1_len255 : forall r,
+  rd_nistring 1 (fst (wr_nistring 1 true str255) ++ r) = Ok (repeat 65 254, r)
+  /\ snd (wr_nistring 1 true str255) = repeat 65 254.
+Proof. intros r. apply (rd_wr_str1_any str255 r str255_nul_free). Qed.
+
+Lemma nistring1_len300 : vlen (snd (wr_nistring 1 true str300)) = 254.
+Proof. reflexivity. Qed.
 
 (* ---- a concrete instance of the block layer: payload = one length byte + that many bytes ---- *)
 Definition ex_put (t : tables) (rs : srefs) (b : list N) : list N := le_bytes 1 (vlen b) ++ b.
@@ -106,24 +101,19 @@ Lemma ex_roundtrip :
   end.
 Proof. vm_compute. repeat split. Qed.
 
-(* ---- #10 at header level: a 255-character creator string ---- *)
-(* the header Put writes is not the header Get reads, and the independent reader rejects the file *)
-Lemma hdr_creator255_refuted :
-  exists t po, (forall c, str1_ok c -> wf_tables (ex_tables c)) /\ t = ex_tables str255 /\
-    nul_free (h_creator t) /\ vlen (h_creator t) = 255 /\
-    put_hdr t = Ok po /\ po_tables po = t /\
-    match get_hdr (po_bytes po ++ concat ex_pays ++ footer) with
-    | Ok (t', _) => h_creator t' = [] /\ h_exp1 t' = repeat 65 65
-    | _ => True
-    end /\
-    walkb (po_bytes po ++ concat ex_pays ++ footer) = None.
+(* ---- a 255-character creator string at header level: the file is described by the header Put
+   leaves in memory (creator cut to 254 characters) ---- *)
+Lemma ex_wf_any : forall c, nul_free c -> wf_tables (clip_tables (ex_tables c)).
 Proof.
-  eexists. eexists. split.
-  { intros c [C1 C2]. constructor; cbn; try reflexivity; unfold u32, u16, u8, str1_ok, str4_ok, nul_free, cNPOS;
-      repeat split; repeat constructor; try discriminate; try assumption; try (vm_compute; reflexivity). }
-  split; [reflexivity|].
-  split; [apply Forall_forall; intros x Hx; apply repeat_spec in Hx; subst; discriminate|].
-  split; [reflexivity|].
-  split; [vm_compute; reflexivity|]. split; [reflexivity|].
-  split; vm_compute; auto.
+  intros c C. pose proof (clip1_ok c C) as [C1 C2].
+  constructor; cbn; try reflexivity; unfold u32, u16, u8, str1_ok, str4_ok, nul_free, cNPOS;
+    repeat split; repeat constructor; try discriminate; try assumption; try (vm_compute; reflexivity).
+Qed.
+
+Lemma hdr_creator255 :
+  exists po, put_hdr (ex_tables str255) = Ok po /\
+    po_tables po = ex_tables (repeat 65 254) /\
+    walkb (po_bytes po ++ concat ex_pays ++ footer) = Some (ex_tables (repeat 65 254), ex_pays).
+Proof.
+  eexists. split; [vm_compute; reflexivity|]. split; [reflexivity|]. vm_compute. reflexivity.
 Qed.
